@@ -10,23 +10,31 @@ import subprocess
 
 VERIF = os.path.dirname(os.path.dirname(os.path.abspath(__file__)))
 TWINS = {"free_space": ("free_space_twin.rs", "verif_twin_free_space", {"TWIN_DEPTH": "5"}),
-         "cache": ("cache_twin.rs", "verif_twin_cache", {"TWIN_SEEDS": "40", "TWIN_STEPS": "60"})}
+         "cache": ("cache_twin.rs", "verif_twin_cache", {"TWIN_SEEDS": "40", "TWIN_STEPS": "60"}),
+         # appended to a source file of the scratch copy (private functions in scope): (file, module test filter, env, target source)
+         "journal": ("journal_twin.rs", "verif_twin_journal", {}, "src/storage/allocation_journal.rs")}
 
 
 def run(unit, repo, timeout=600):
     if unit not in TWINS:
         return None
-    src, test, env = TWINS[unit]
+    src, test, env = TWINS[unit][:3]
+    append_to = TWINS[unit][3] if len(TWINS[unit]) > 3 else None
     d = os.path.join(VERIF, ".scratch", "twin-" + unit)
     shutil.rmtree(d, ignore_errors=True)
     os.makedirs(d)
     try:
         dst = os.path.join(d, "repo")
         subprocess.run(["rsync", "-a", "--exclude", "target", "--exclude", ".git", repo.rstrip("/") + "/", dst + "/"], check=True)
-        os.makedirs(os.path.join(dst, "tests"), exist_ok=True)
-        shutil.copy(os.path.join(VERIF, "twin", src), os.path.join(dst, "tests", test + ".rs"))
+        if append_to:
+            with open(os.path.join(dst, append_to), "a") as f:
+                f.write("\n" + open(os.path.join(VERIF, "twin", src)).read())
+            cmd = ["cargo", "test", "--offline", "--lib", test, "--", "--nocapture"]
+        else:
+            os.makedirs(os.path.join(dst, "tests"), exist_ok=True)
+            shutil.copy(os.path.join(VERIF, "twin", src), os.path.join(dst, "tests", test + ".rs"))
+            cmd = ["cargo", "test", "--offline", "--release", "--test", test, "--", "--nocapture"]
         e = dict(os.environ, CARGO_NET_OFFLINE="true", CARGO_TARGET_DIR=os.path.join(VERIF, ".cache", "twin-target"), **env)
-        cmd = ["cargo", "test", "--offline", "--release", "--test", test, "--", "--nocapture"]
         try:
             p = subprocess.run(cmd, cwd=dst, env=e, capture_output=True, text=True, timeout=timeout)
         except subprocess.TimeoutExpired:
@@ -34,7 +42,8 @@ def run(unit, repo, timeout=600):
         out = p.stdout + p.stderr
         m = re.search(r"^TWIN-COUNTEREXAMPLE (.*)$", out, re.M)
         if m:
-            return dict(found=True, counterexample=m.group(1), cmd="cd <copy of /repo> && cp /verif/twin/%s tests/%s.rs && %s %s" % (src, test, " ".join("%s=%s" % kv for kv in env.items()), " ".join(cmd)))
+            place = ("cat /verif/twin/%s >> %s" % (src, append_to)) if append_to else ("cp /verif/twin/%s tests/%s.rs" % (src, test))
+            return dict(found=True, counterexample=m.group(1), cmd="cd <copy of /repo> && %s && %s %s" % (place, " ".join("%s=%s" % kv for kv in env.items()), " ".join(cmd)))
         m = re.search(r"^TWIN-NO-COUNTEREXAMPLE (.*)$", out, re.M)
         if m:
             return dict(found=False, note="twin search found no failing call sequence (%s)" % m.group(1))
